@@ -133,6 +133,9 @@ func C[T any](c chan<- T) chan<- T {
 		return c
 	}
 	s.park(th, op{kind: opYield, label: "close"})
+	ch := sendChanPtr(c)
+	th.h = mix(mix(th.h, s.chanH[ch]), 13)
+	s.chanH[ch] = th.h
 	return c
 }
 
